@@ -1,6 +1,8 @@
 package world
 
 import (
+	"bytes"
+	"encoding/json"
 	"fmt"
 	"math/rand"
 	"sort"
@@ -14,6 +16,33 @@ type Conc struct {
 	Q        int    `json:"q"`        // prefix length under which the nAddr classes are embedded
 	Prefix   uint32 `json:"prefix"`   // the q prefix bits, left-aligned
 	KBits    int    `json:"kBits"`
+	// DefaultNs: the abstract namespace of this world that is concretised as the namespace literally named "default"
+	// (whose objects may then omit metadata.namespace); "" = none. Applied by Rename before anything else sees the world.
+	DefaultNs string `json:"defaultNs"`
+}
+
+// Rename returns the world with the namespace DefaultNs renamed to "default" everywhere it is mentioned (object namespaces,
+// the automatic name label in selectors). Idempotent.
+func (c *Conc) Rename(w *World) *World {
+	if c.DefaultNs == "" {
+		return w
+	}
+	for i := range w.Namespaces {
+		if w.Namespaces[i].Name == "default" {
+			return w
+		}
+	}
+	b, err := json.Marshal(w)
+	if err != nil {
+		panic(err)
+	}
+	b = bytes.ReplaceAll(b, []byte(`"`+c.DefaultNs+`"`), []byte(`"default"`))
+	out := &World{}
+	if err := json.Unmarshal(b, out); err != nil {
+		panic(err)
+	}
+	out.Normalize()
+	return out
 }
 
 func log2(n int) int {
@@ -94,6 +123,10 @@ func NewConc(w *World, seed int64) *Conc {
 				break
 			}
 		}
+	}
+	// one namespace in four worlds is the namespace "default" (drawn last: the other choices of a seed stay what they were)
+	if len(w.Namespaces) > 0 && r.Intn(4) == 0 {
+		c.DefaultNs = w.Namespaces[r.Intn(len(w.Namespaces))].Name
 	}
 	return c
 }
